@@ -177,16 +177,25 @@ def e_long(c):
     np.random.seed(c["hseed"] % 2 ** 32)
     hs = lib(PPM.HDD, container(sp.tolist(), c["form"]), M)
     check_hdd(sp, hs, M, f"HDD on boundary symbols (all ON / none ON / M-1 ON / ends ON), M={M}")
+    sat = "-"
+    if c["hseed"] % 3 == 0:
+        # a saturated (every slot ON) and an empty record of many symbols: every symbol still gets exactly one slot, among those that were ON
+        S = 1024 if M >= 64 else 256
+        for nm, rec in (("saturated", np.ones(S * M, dtype=np.uint8)), ("empty", np.zeros(S * M, dtype=np.uint8))):
+            np.random.seed((c["hseed"] // 3) % 2 ** 32)
+            hh = lib(PPM.HDD, rec if c["form"] != "bs" else container(rec.tolist(), "bs"), M)
+            check_hdd(rec, hh, M, f"HDD on a {nm} record of {S} symbols, M={M}")
+        sat = "saturated+empty-record"
     g.verify()
     g.release()
-    return {"nontrivial": ns >= 2 and len(set(bits)) > 1, "classes": [c["form"], f"M{M}", "long" if c["n"] > 64 else "short"]}
+    return {"nontrivial": ns >= 2 and len(set(bits)) > 1, "classes": [c["form"], f"M{M}", "long" if c["n"] > 64 else "short", sat]}
 
 
 @st.composite
 def s_sdd(draw):
     M = draw(st.sampled_from([2, 4, 8, 16, 32]))
     return {"M": M, "nsym": draw(st.integers(1, 12)), "sps": draw(st.integers(2, 64)), "seed": draw(st.integers(0, 2 ** 31)),
-            "shape": draw(st.sampled_from(["nrz", "rz", "gaussian", "random"])), "Vout": draw(st.floats(0.01, 40)),
+            "shape": draw(st.sampled_from(["nrz", "rz", "gaussian", "random", "zeros", "const", "int", "twin"])), "Vout": draw(st.floats(0.01, 40)),
             "bias": draw(st.sampled_from([0.0, 0.0, 0.5, 3.0])), "sigma": draw(st.sampled_from([0.0, 0.0, 0.05, 0.3, 2.0])),
             "T": draw(st.floats(0.5, 2.0)), "m": draw(st.integers(1, 3)),
             "form": draw(st.sampled_from(["es", "es_noise", "array", "list"]))}
@@ -202,6 +211,16 @@ def e_sdd(c):
     cw[np.arange(ns) * M + sym] = 1
     if c["shape"] == "random":
         wave = rs.uniform(0, 1, ns * M * sps)
+    elif c["shape"] == "zeros":                   # nothing received at all
+        wave = np.zeros(ns * M * sps)
+    elif c["shape"] == "const":                   # a flat line: every slot ties
+        wave = np.full(ns * M * sps, c["bias"] + c["Vout"])
+    elif c["shape"] == "int":                     # coarsely quantised samples (ADC counts): exact ties between slots are common
+        wave = rs.randint(0, 3, ns * M * sps).astype(float)
+    elif c["shape"] == "twin":                    # two ON slots of identical shape in every symbol
+        cw2 = cw.copy().reshape(ns, M)
+        cw2[np.arange(ns), (sym + 1 + rs.randint(0, M - 1, ns)) % M] = 1
+        wave = lib(D.DAC, cw2.reshape(-1), Vout=c["Vout"], bias=c["bias"], pulse_shape="nrz").signal.real
     elif c["shape"] == "gaussian":
         T = int(min(2 * sps, max((sps + 1) // 2, round(c["T"] * sps))))
         wave = lib(D.DAC, cw, Vout=c["Vout"], bias=c["bias"], pulse_shape="gaussian", T=T, m=c["m"]).signal.real
@@ -234,7 +253,7 @@ def e_sdd(c):
     mx = sums.max(axis=1)
     check(bool(np.all(picked >= mx - 1e-9 * np.maximum(1.0, np.abs(mx)))), "sdd-not-argmax", f"sums={sums.tolist()[:2]} out={o.tolist()[:2]}")
     leak = "-"
-    if c["sigma"] == 0 and c["shape"] != "random":
+    if c["sigma"] == 0 and c["shape"] in ("nrz", "rz", "gaussian"):
         # identity on the noiseless waveform of a codeword - whenever the ON slot does carry the largest integrated amplitude
         # (very wide Gaussian pulses on a 2-3 sample grid can put more into a neighbouring slot; that is the waveform, not SDD)
         on = sums[np.arange(ns), sym]
